@@ -249,6 +249,12 @@ class Sym:
     def nt(self, clsqual, values):
         return self.I.make_nt(self.I.get_function(clsqual), list(values), {})
 
+    def pylist(self, items):
+        """a python list of known length whose items may be symbolic"""
+        b = self.I.new_list(list(items))
+        b.owner = "input"
+        return b
+
     def odict(self, pairs):
         from .builtins_model import SDict
         d = SDict(pairs)
